@@ -232,6 +232,169 @@ type Nest16 struct {
 	R  []In16
 }
 `},
+	// unusual but legal column names: one a prefix of another, differing only
+	// in case, Go keywords, non-ASCII, punctuation, leading digit, a space
+	{Name: "oddnames", Type: "OddNames", Src: `
+type OddInner struct {
+	A  int32  ` + "`parquet:\"a\"`" + `
+	AB *int32 ` + "`parquet:\"ab\"`" + `
+}
+
+type OddNames struct {
+	A     int32    ` + "`parquet:\"a\"`" + `
+	AB    *int32   ` + "`parquet:\"ab\"`" + `
+	AU    int64    ` + "`parquet:\"a_b\"`" + `
+	Upper *string  ` + "`parquet:\"A\"`" + `
+	Type  string   ` + "`parquet:\"type\"`" + `
+	Func  []int32  ` + "`parquet:\"func\"`" + `
+	E     *bool    ` + "`parquet:\"été\"`" + `
+	Dash  float64  ` + "`parquet:\"x-y\"`" + `
+	Digit *int64   ` + "`parquet:\"1st\"`" + `
+	Space []string ` + "`parquet:\"has space\"`" + `
+	In    *OddInner ` + "`parquet:\"a.b\"`" + `
+	Ins   []OddInner ` + "`parquet:\"abc\"`" + `
+}
+`},
+	// more than 64 columns
+	{Name: "wide70", Type: "Wide70", Src: `
+type Wide70 struct {
+	C00 int32
+	C01 *int32
+	C02 int64
+	C03 *string
+	C04 bool
+	C05 *float64
+	C06 []int32
+	C07 string
+	C08 *bool
+	C09 float32
+	C10 int32
+	C11 *int32
+	C12 int64
+	C13 *string
+	C14 bool
+	C15 *float64
+	C16 []int32
+	C17 string
+	C18 *bool
+	C19 float32
+	C20 int32
+	C21 *int32
+	C22 int64
+	C23 *string
+	C24 bool
+	C25 *float64
+	C26 []int32
+	C27 string
+	C28 *bool
+	C29 float32
+	C30 int32
+	C31 *int32
+	C32 int64
+	C33 *string
+	C34 bool
+	C35 *float64
+	C36 []int32
+	C37 string
+	C38 *bool
+	C39 float32
+	C40 int32
+	C41 *int32
+	C42 int64
+	C43 *string
+	C44 bool
+	C45 *float64
+	C46 []int32
+	C47 string
+	C48 *bool
+	C49 float32
+	C50 int32
+	C51 *int32
+	C52 int64
+	C53 *string
+	C54 bool
+	C55 *float64
+	C56 []int32
+	C57 string
+	C58 *bool
+	C59 float32
+	C60 int32
+	C61 *int32
+	C62 int64
+	C63 *string
+	C64 bool
+	C65 *float64
+	C66 []int32
+	C67 string
+	C68 *bool
+	C69 float32
+}
+`},
+	// five levels of nesting alternating optional and required groups
+	{Name: "deep5", Type: "Deep5", Src: `
+type D5 struct {
+	Y *int64
+	Z int64
+}
+
+type D4 struct {
+	D D5
+}
+
+type D3 struct {
+	C *D4
+	X string
+}
+
+type D2 struct {
+	B D3
+	W *int32
+}
+
+type Deep5 struct {
+	A *D2
+	V int32
+}
+`},
+	// one struct type (holding a nested struct) used at two depths: the groups
+	// address.geo and employer.address.geo share name and parent name
+	{Name: "samedeep", Type: "SameDeep", Src: `
+type Geo struct {
+	Lat float64
+	Lon *float64
+}
+
+type Addr struct {
+	Street string
+	Geo    Geo
+}
+
+type Emp struct {
+	Name    string
+	Address Addr
+}
+
+type SameDeep struct {
+	ID       int32
+	Address  Addr
+	Employer *Emp
+	Former   Emp
+}
+`},
+	// required bool next to another column (bit-packed values without levels)
+	{Name: "rbool", Type: "RBool", Src: `
+type RBool struct {
+	B bool
+	N int32
+}
+`},
+	// the last column is a required string (large pages at the very end of the data)
+	{Name: "tailstr", Type: "TailStr", Src: `
+type TailStr struct {
+	ID int32
+	S  string
+}
+`},
 	// single-column records: the last column of a row group is also the
 	// first column of the next one
 	{Name: "one", Type: "One", Src: `
